@@ -14,8 +14,10 @@ func init() { register("C12", checkC12) }
 
 func checkC12(e *Env) {
 	e.R.Explanation = "Decided (structural necessary conditions of C12): (a) the additional-information partition of decodeTypedUint, evaluated for each of the 32 values: 0..23 direct, 24/25/26/27 -> 1/2/4/8 follow bytes read with io.ReadFull (error gate), 28..31 have no successful exit; the value is the direct value or the big-endian accumulation; agreement with the encoder's thresholds and addinfo.go; (b) the declared string length is range-checked before it becomes io.CopyN's count (E6 U1/U4); (c) gates: major-type equality in decodeOfType, CopyN error, utf8.Valid in DecodeTextString, the first byte read. " +
-		"Not decided: that decoded values equal RFC 8949's for every input; the read position of the underlying reader."
+		"Not decided: that decoded values equal RFC 8949's for every input; the read position of the underlying reader beyond two structural facts: NewDecoder keeps the reader it was given (no read-ahead wrapper) and strings are read with exact counts."
 	e.R.RuleText = "E7 table extraction by folding the CFG for each value of the discriminator (finite domain, exhaustive); E2 gates; E6 on decoder.go"
+	// COPYLEN: no tolerant copy of input bytes (shared rule, copylen.go)
+	copiesAreExact(e, 0, "internal/cbor.")
 	dec := decoderHeadTable(e)
 	lowest := encoderHeadTable(e)
 	class, length, limit := addInfoTables(e)
@@ -38,6 +40,12 @@ func checkC12(e *Env) {
 		e.requireResult("RESULT", e.fn(t.fn), bo, 0, "call:(*cbor.Decoder).decodeOfType(param:d,"+t.typ+")#0", "decodeOfType with the major type of the method")
 	}
 	e.requireResult("RESULT", e.fn("internal/cbor.(*Decoder).DecodeByteString"), bo, 0, "call:(*cbor.Decoder).decodeBytesOfType(param:d,const:64)#0", "decodeBytesOfType(TypeBytes)")
+	// the decoder reads from the very reader it was given: a read-ahead wrapper
+	// would pull bytes that belong to whatever follows the item (seed C12-f)
+	if nd := e.fn("internal/cbor.NewDecoder"); nd != nil {
+		e.requireResult("RESULT", nd, gate.Outcome{Kind: gate.AnyReturn}, 0, "alloc:cbor.Decoder", "a fresh Decoder")
+		e.requireStore("RESULT", nd, "alloc:cbor.Decoder.r", "param:r", "the reader passed in, unwrapped")
+	}
 	rb := e.fn("internal/cbor.(*Decoder).ReadByte")
 	e.requireGates("GATE", rb, bo, noCfg, gate.CallOK("R.read", "io.ReadFull", "param:d.r", "{slice(alloc:[1]byte,*)|local:*|slice(local:*,*)}"))
 
